@@ -283,7 +283,9 @@ class DelayedS3Writer(S3Limits):
             mpu.uploadId = uploadId
             return mpu
 
-        lock = DLock(self._build_name("MPULock"), client)
+        # name only: second positional argument of distributed.Lock is not the client any more,
+        # the lock finds current client (the one ``_dask_client()`` returned) on its own
+        lock = DLock(self._build_name("MPULock"))
         with lock:
             uploadId = _safe_get(shared_state, 0.1)
             if uploadId is not None:
